@@ -191,16 +191,23 @@ def granter_cases(draw):
                                      st.sampled_from([0, 100, 200, 400, 600, 900])), min_size=1, max_size=6))
     # the wire field is 31 bits of milliseconds: keep the published value representable
     leases = [(n, ms, us if ms < 0x7FFFFFFF else 0) for n, ms, us in leases]
-    return {'leases': [list(l) for l in leases], 'msg': draw(st.booleans())}
+    # several leases published in one go (grant then revoke, ...) must be announced in the order they were published
+    return {'leases': [list(l) for l in leases], 'msg': draw(st.booleans()), 'burst': draw(st.booleans()),
+            'blocked': draw(st.booleans())}
 
 
 def judge_granter(case):
     """real server with a lease publisher; ttl given as (ms, extra microseconds) -> expected round(ms + us/1000)"""
     ops = [['tick', 3], ['settle']]
+    if case.get('burst') and case.get('blocked'):
+        ops.append(['block', 's'])  # the granter's writer is not draining: the announcements pile up in its send queue
     for n, ms, us in case['leases']:
         ops.append(['lease', n, ms + us / 1000.0])
-        ops.append(['settle'])
-        ops.append(['adv', 7])
+        if not case.get('burst'):
+            ops.append(['settle'])
+            ops.append(['adv', 7])
+    if case.get('burst'):
+        ops += [['tick', 2], ['unblock', 's'], ['settle']]
     prog = {'cfg': {'msg': case['msg'], 'frag': [None, None], 'rbuf': [1024, 1024], 'raw': 'c', 'lease': {'queue': 0},
                     'raw_setup_lease': True}, 'inter': [], 'ops': ops, 'heal': False, 'heal_lease': False}
     tr = run_program(prog)
@@ -212,7 +219,7 @@ def judge_granter(case):
     errs = [f for f in tr.scn.raw.frames if f['type'] == 'ERROR']
     if errs:
         out.append(viol('granter_sent_error', 'C14:granter_error', code=errs[0].get('code'), data=errs[0].get('data')))
-    return out, True, ['role=granter', 'leases=%d' % len(case['leases'])]
+    return out, True, ['role=granter', 'leases=%d' % len(case['leases']), 'published_in_one_go=%s' % bool(case.get('burst'))]
 
 
 def reconnect_cases():
